@@ -8,6 +8,12 @@ func init() {
 			r("N1", RuleN1),
 			r("N1b", RuleN1b),
 			r("B1", RuleB1),
+			r("N2", RuleN2),
+			r("U1", RuleU1),
+			r("X1", RuleX1),
+			r("P1", RuleP1),
+			r("P2", RuleP2),
+			r("T1", RuleT1),
 		},
 		Explanation: "Totality is split into the mechanisms the code relies on, each decided on every path/site: scanner pushdown reachability (no empty pops, no inverted lexeme spans, no index underflow, progress), nil/unset typestates of the parser and directive tree, guarded recursion and worklists, discharged explicit panics, recover barriers around the trusted library.",
 		Trusted:     trustedCommon,
